@@ -270,7 +270,10 @@ def declared_parameters(model) -> dict:
     out = {}
     for k, par in model.get_raw_parameters(as_copy=False).items():
         v = par.value
-        out[k] = float(v) if isinstance(v, int | float) else ("assignment", getattr(v.fn, "__name__", "?"), tuple(v.args))
+        if hasattr(v, "fn") and hasattr(v, "args"):
+            out[k] = ("assignment", getattr(v.fn, "__name__", "?"), tuple(v.args))
+        else:
+            out[k] = float(v)        # int, float or a numpy scalar
     return out
 
 
